@@ -7,7 +7,7 @@ Each writer and reader is abstracted to a set of WORDS: sequences of run-merged 
 obtained by enumerating the paths through the structured body (conditions are ignored: the reader branches on image
 flags, the writer on object state).  Obligation: every writer word equals some reader word.  Same-width role swaps are
 invisible here (C10 handles constants); lengths of variable parts are compared by kind only."""
-from astu import C, ctxt, gt_pair, eq_const, strip, strip_all, walk, txt, short, stmts_of, functions_by
+from astu import C, ctxt, gt_pair, eq_const, reach, reach_txt, ctext, strip, strip_all, walk, txt, short, stmts_of, functions_by
 import a4_shape
 import a4_twin
 from vlib.core import ob
